@@ -31,9 +31,10 @@ Where the code still deviates from the property (findings, each with a counterex
   its n−1 siblings are lost (`one_response_per_expanded_query_partial`, `answer_is_itemwise_partial`,
   `sibling_responses_lost_counterexample`); repairing it needs `json_array_op` to return several results
   (an API change);
-* `pipeline/invariant-error-loses-request` — a (user-defined) plugin that leaves a non-object among the
-  expanded queries gets the whole query answered with one invariant error whose request is the placeholder
-  (`invariant_breaker_loses_request_counterexample`);
+  the same holds when a (user-defined) plugin breaks the invariant on one expanded query
+  (`broken_child_takes_siblings_counterexample`) — the error response now names the original query
+  (`invariant_error_carries_query`, fix c053049; the placeholder request was finding
+  `pipeline/invariant-error-loses-request`);
 * the prediction cache is the one piece of shared mutable state: transparent iff no two inputs with different
   predictions share a rounded key (`cache_transparent`, `cache_collision_counterexample`; the collision on the
   real record is C08's finding `predict/cache-rounding-collision`).
@@ -47,7 +48,7 @@ The theorems about answering and echoing take the hypothesis that every plugin m
 a non-empty array of objects (`ObjOp`): proved for grid search, inject, the load balancer and the user-defined
 split / fail-on-marker plugins of the harness (`builtin_plugins_keep_objects`,
 `user_split_and_fail_keep_objects`), false of the user-defined invariant breaker
-(`user_breaker_does_not_keep_objects`, `invariant_breaker_loses_request_counterexample`); for a recorded table
+(`user_breaker_does_not_keep_objects`); `error_echoes_request` needs no hypothesis; for a recorded table
 plugin it is a property of the recorded data (true of
 the r-tree matchers and the haversine load balancer, which only insert fields).
 
@@ -224,9 +225,9 @@ theorem error_response_shape (plugins : List Plugin) (q e : Json) (h : prepT plu
     simp only [hp, Except.error.injEq] at h
     subst h
     cases pe with
-    | plugin r pe => exact ⟨_, _, rfl⟩
-    | invariant r => exact ⟨_, _, rfl⟩
-    | notObject r => exact ⟨_, _, rfl⟩
+    | plugin r pe => exact ⟨_, _, by simp only [errorResponse]; rw [fixRequest_response]⟩
+    | invariant r => exact ⟨_, _, by simp only [errorResponse]; rw [fixRequest_response]⟩
+    | notObject r => exact ⟨_, _, by simp only [errorResponse]; rw [fixRequest_response]⟩
 
 /-- grid search, inject (both modes) and the load balancer map an object to an object or to a non-empty array
 of objects -/
@@ -283,17 +284,19 @@ theorem every_query_answered (plugins : List Plugin) (hw : ∀ p ∈ plugins, Ob
   | error e => simp
   | ok qs => simpa using (expansion_nonempty plugins hw q qs h).1
 
-/-- **What an error response of the input stage carries.**  Either the query is not an object and is echoed
-verbatim, or some plugin `p` failed on a query `x` of the state the plugins before it produced from `q` (`q`
-itself for the first plugin; an expanded / augmented query later) and the request is `x` — or what `p` had
-made of `x` when it failed.  Never the placeholder. -/
-theorem error_echoes_request (plugins : List Plugin) (hw : ∀ p ∈ plugins, ObjOp (processT p))
-    (q e : Json) (h : prepT plugins q = .error e) :
+/-- **What an error response of the input stage carries** — for every plugin list, user-defined and
+invariant-breaking plugins included.  Either the query is not an object and is echoed verbatim; or some plugin
+`p` failed on a query `x` of the state the plugins before it produced from `q` (`q` itself for the first plugin;
+an expanded / augmented query later) and the request is `x` as `p` left it (or the original query, should that
+be the literal placeholder object); or a plugin left something that is not an object and the request is the
+original query (fix c053049: it was the placeholder `{"error":"unable to display query"}`). -/
+theorem error_echoes_request (plugins : List Plugin) (q e : Json) (h : prepT plugins q = .error e) :
     (q.isObject = false ∧ e = .obj [("request", q), ("error", .str "UnexpectedQueryStructure")]) ∨
-    (∃ pre p post xs x pe, plugins = pre ++ p :: post ∧
+    (∃ pre p post xs x pe req, plugins = pre ++ p :: post ∧
       GridSearch.applyOps (pre.map processT) (.arr [q]) = .ok (.arr xs) ∧ x ∈ xs ∧
       processT p x = .error pe ∧
-      e = .obj [("request", pe.left.getD x), ("error", .str pe.kind)]) := by
+      e = .obj [("request", req), ("error", .str pe.kind)] ∧ (req = pe.left.getD x ∨ req = q)) ∨
+    (q.isObject = true ∧ e = .obj [("request", q), ("error", .str invariantKind)]) := by
   cases ho : q.isObject with
   | false =>
     left
@@ -305,17 +308,31 @@ theorem error_echoes_request (plugins : List Plugin) (hw : ∀ p ∈ plugins, Ob
     simp only [ho, if_true] at h
     cases ha : GridSearch.applyOps (plugins.map processT) (.arr [q]) with
     | ok s =>
-      obtain ⟨final, rfl, hall, _⟩ := applyOps_objects (plugins.map processT)
-        (by intro op hop; obtain ⟨p, hp, rfl⟩ := List.mem_map.mp hop; exact hw p hp)
-        [q] s (by simp [ho]) (by simp) ha
-      simp [ha, GridSearch.jsonArrayFlatten, hall] at h
+      right
+      obtain ⟨final, rfl⟩ := applyOps_ok_arr _ _ s ha
+      simp only [ha, GridSearch.jsonArrayFlatten] at h
+      by_cases hall : final.all Json.isObject = true
+      · simp [hall] at h
+      · simp only [hall, Bool.false_eq_true, if_false, GridSearch.withRequest, isNoRequest_noRequest,
+          if_true, errorResponse, fixRequest_self, Except.error.injEq] at h
+        exact ⟨rfl, h.symm⟩
     | error pe =>
+      left
       simp only [ha, Except.error.injEq] at h
       obtain ⟨pre', op, post', xs, x, pe', h1, h2, h3, h4, h5⟩ := applyOps_error _ _ pe ha
       obtain ⟨pre, rest, rfl, hpre, hrest⟩ := List.map_eq_append_iff.mp h1
       obtain ⟨p, post, rfl, hp, hpost⟩ := List.map_eq_cons_iff.mp hrest
       subst hpre hp h5
-      exact ⟨pre, p, post, xs, x, pe', rfl, h2, h3, h4, by rw [← h]; rfl⟩
+      simp only [GridSearch.withRequest] at h
+      by_cases hx : GridSearch.isNoRequest x = true
+      · simp only [hx, if_true, errorResponse, fixRequest_response] at h
+        refine ⟨pre, p, post, xs, x, pe', _, rfl, h2, h3, h4, h.symm, ?_⟩
+        cases hl : pe'.left with
+        | none => simp
+        | some l => by_cases hn : GridSearch.isNoRequest l = true <;> simp [hn]
+      · simp only [hx, Bool.false_eq_true, if_false, errorResponse, fixRequest_response] at h
+        refine ⟨pre, p, post, xs, x, pe', _, rfl, h2, h3, h4, h.symm, ?_⟩
+        by_cases hn : GridSearch.isNoRequest (pe'.left.getD x) = true <;> simp [hn]
 
 /-- **Each response carries the request it answers**, provided the single-query function echoes its argument
 (which `run_single_query` does: `create_initial_output` / `package_error` put `request_json` under
@@ -377,19 +394,32 @@ example (respond : Json → Json) :
          respond (.obj [("o", .num "0" 0), ("n", .str "c")])] := by
   rfl
 
-/- Full statement (false of the code for plugins that break the invariant): every error response echoes the
-request (`error_echoes_request` proves it for `ObjOp` plugins). -/
+/-- **A plugin-broken invariant is answered with the original query as its request** (fix c053049; the request
+was the placeholder, key `pipeline/invariant-error-loses-request`): whenever the plugin stage succeeds but
+leaves something that is not an object, the query gets exactly one response, `{"request": q, "error":
+<invariant>}` -/
+theorem invariant_error_carries_query (plugins : List Plugin) (respond : Json → Json) (q : Json)
+    (final : List Json) (ho : q.isObject = true)
+    (hs : GridSearch.applyOps (plugins.map processT) (.arr [q]) = .ok (.arr final))
+    (hb : final.all Json.isObject = false) :
+    answer plugins respond q = [.obj [("request", q), ("error", .str invariantKind)]] := by
+  simp [answer, prepT, GridSearch.applyInputPlugins, ho, hs, GridSearch.jsonArrayFlatten, hb,
+    GridSearch.withRequest, isNoRequest_noRequest, errorResponse]
 
-/-- **Finding `pipeline/invariant-error-loses-request`**: when a (user-defined) plugin leaves something that
-is not an object — here the scalar `7` — the final `json_array_flatten` answers the whole query with
-`package_invariant_error(None, …)`: the request is the placeholder, and a sibling that was fine is lost with
-it -/
-theorem invariant_breaker_loses_request_counterexample (respond : Json → Json) :
+-- non-vacuity: the user-defined breaker leaves the scalar 7; the response names the query
+example (respond : Json → Json) :
     answer [.userBreaker "break"] respond (.obj [("break", .str "scalar")])
-      = [.obj [("request", noRequest), ("error", .str invariantKind)]] ∧
-    answer [.userSplit "alts", .userBreaker "break"] respond
-        (.obj [("alts", .arr [.obj [("break", .str "scalar")], .obj [("fine", .null)]])])
-      = [.obj [("request", noRequest), ("error", .str invariantKind)]] := by
+      = [.obj [("request", .obj [("break", .str "scalar")]), ("error", .str invariantKind)]] := by
+  rfl
+
+/-- … but the queries next to the broken one are still lost with it (part of finding
+`pipeline/sibling-responses-lost`: one result per original query): the split makes two children, the breaker
+turns the first into `7`, and the second — which was fine — is never served -/
+theorem broken_child_takes_siblings_counterexample (respond : Json → Json) :
+    let q : Json := .obj [("alts", .arr [.obj [("break", .str "scalar")], .obj [("fine", .null)]])]
+    answer [.userSplit "alts", .userBreaker "break"] respond q
+      = [.obj [("request", q), ("error", .str invariantKind)]] ∧
+    (itemwiseAnswer [.userSplit "alts", .userBreaker "break"] respond q).length = 2 := by
   exact ⟨by rfl, by rfl⟩
 
 /-! ### one response per expanded query -/
@@ -483,9 +513,10 @@ theorem sibling_responses_lost_counterexample (respond : Json → Json) :
     (itemwiseAnswer [.gridSearch, s1Inject] respond s1Query).length = 2 := by
   refine ⟨s1_grid_expands, ⟨_, s1_first_child_fails⟩, ⟨_, s1_second_child_passes⟩, ?_, ?_⟩
   · have ho : s1Query.isObject = true := rfl
+    have hn : GridSearch.isNoRequest s1Child1 = false := rfl
     simp [answer, prepT, GridSearch.applyInputPlugins, ho, GridSearch.applyOps, GridSearch.jsonArrayOp,
       GridSearch.mapOp, s1_grid_expands, GridSearch.flattenInPlace, GridSearch.flatten1, Json.isArray,
-      s1_first_child_fails, errorResponse]
+      s1_first_child_fails, errorResponse, GridSearch.withRequest, hn, fixRequest_response]
   · have ho : s1Query.isObject = true := rfl
     simp [itemwiseAnswer, ho, itemwise, s1_grid_expands, expand1, s1_first_child_fails,
       s1_second_child_passes]
